@@ -95,6 +95,21 @@ theorem kvPost_savefail (cfg : Cfg) (kv : KV) (op : Op) (h : Inv kv) : kvPost cf
     | exact deleteVersion_savefail _ _ _
     | exact deleteSecret_savefail _ _
 
+theorem kvPost_synced (cfg : Cfg) (kv : KV) (op : Op) (sok : Bool) (h : Inv kv) (hs : Synced kv) :
+    Synced (kvPost cfg kv op sok) := by
+  cases op <;> simp only [kvPost] <;> first
+    | exact hs
+    | exact put_synced _ _ _ _ _ h hs
+    | exact setActive_synced _ _ _ _ hs
+    | exact deleteVersion_synced _ _ _ _ hs
+    | exact deleteSecret_synced _ _ _ hs
+
+theorem step_synced (cfg : Cfg) (kv : KV) (c : Caller) (op : Op) (aok sok : Bool) (h : Inv kv) (hs : Synced kv) :
+    Synced (step cfg kv c op aok sok).1 := by
+  rcases step_state cfg kv c op aok sok with e | e <;> rw [e]
+  · exact hs
+  · exact kvPost_synced cfg kv op sok h hs
+
 def opName : Op → String
   | .list => ""
   | .info n | .get n | .getCond n _ | .getVersion n _ | .put n _ | .activate n _
@@ -229,5 +244,13 @@ theorem run_inv (cfg : Cfg) (kv : KV) (h : Inv kv) (xs : List Call) : Inv (run c
   induction xs generalizing kv with
   | nil => exact h
   | cons x xs ih => exact ih _ (step_inv cfg kv x.caller x.op x.auditOk x.saveOk h)
+
+theorem run_synced (cfg : Cfg) (kv : KV) (h : Inv kv) (hs : Synced kv) (xs : List Call) :
+    Synced (run cfg kv xs) := by
+  induction xs generalizing kv with
+  | nil => exact hs
+  | cons x xs ih =>
+    exact ih _ (step_inv cfg kv x.caller x.op x.auditOk x.saveOk h)
+             (step_synced cfg kv x.caller x.op x.auditOk x.saveOk h hs)
 
 end Setec.DB
